@@ -229,7 +229,10 @@ def stepEncB (which : String) (caps : Nat) (cells : List (Cell G)) (impl : Strin
   | none => "bad-op\tbad-op\tbad-op"
   | some cs =>
     let m := if which = "cells" then hexOfRunes (VaxisModel.Model.SgrBytes.encodeCellsB (bit caps 2) cs)
-             else if which = "ss" then hexOfRunes (VaxisModel.Model.SgrBytes.ssEncodeB (bit caps 2) cs) else "bad-op"
+             else if which = "ss" then hexOfRunes (VaxisModel.Model.SgrBytes.ssEncodeB (bit caps 2) cs)
+             else if which = "render" then
+               (if cs.isEmpty then "-" else hexOfRunes (VaxisModel.Model.SgrBytes.renderFromB (bit caps 0) (bit caps 1) (bit caps 2) {} cs))
+             else "bad-op"
     s!"{m}\t{impl}\t{if impl = "panic" then "FAIL panic" else "ok"}"
 
 /-- ParserIO's oracle is indexed by the byte offset of the rune that starts the cluster: the uniseg table (one entry per rune)
